@@ -165,6 +165,7 @@ static const Opt OPTS[] = {
 	{ NNG_OPT_WS_RECV_TEXT, 'b', { 1, 0 }, 2 },
 	{ NNG_OPT_WS_SEND_TEXT, 'b', { 1, 0 }, 2 },
 	{ NNG_OPT_WS_HEADER "X-Sim", 's', { 0, 1, 2 }, 3 },
+	{ NNG_OPT_WS_HEADER "Connection", 's', { 0, 1, 2 }, 3 }, // a header the handshake itself sets (with static storage)
 	{ NNG_OPT_WS_PROTOCOL, 's', { 0, 1, 2 }, 3 },
 	{ NNG_OPT_WS_REQUEST_URI, 's', { 0, 1, 2 }, 3 },
 	{ NNG_OPT_UDP_COPY_MAX, 'z', { 0, 1, 100, 2000, 70000 }, 5 },
@@ -502,6 +503,13 @@ do_dial(Sock *s, int slot, int mode)
 		if (rv == 0) {
 			(void) nng_dialer_set_ms(d, NNG_OPT_RECONNMINT, (nng_duration) W(5, 30));
 			(void) nng_dialer_set_ms(d, NNG_OPT_RECONNMAXT, (nng_duration) W(0, 60));
+			if (url.compare(0, 5, "ws://") == 0 && W(0, 1) == 0) {
+				// a header the websocket handshake sets itself, given again by the application with the value it
+				// has anyway (the handshake still works), and one of its own
+				(void) nng_dialer_set_string(d, NNG_OPT_WS_HEADER "Connection", "Upgrade");
+				(void) nng_dialer_set_string(d, NNG_OPT_WS_HEADER "X-Sim-App", "c03");
+				sim_probe("c03_ws_static_header_given");
+			}
 			rv = nng_dialer_start(d, NNG_FLAG_NONBLOCK);
 			if (rv != 0)
 				(void) nng_dialer_close(d);
@@ -2835,6 +2843,11 @@ http_part(Params *p)
 				nng_http_set_method(conn, W(0, 1) ? "POST" : "HEAD");
 			(void) nng_http_set_header(conn, "X-Req", "abc");
 			(void) nng_http_add_header(conn, "X-Req", "def");
+			// headers the library itself keeps with static storage are set and extended too
+			if (W(0, 2) == 0)
+				(void) nng_http_set_header(conn, "Host", W(0, 1) ? "sim.example" : "sim.example:8080");
+			if (W(0, 3) == 0)
+				(void) nng_http_add_header(conn, "Host", "other.example");
 			if (W(0, 3) == 0)
 				nng_http_del_header(conn, "X-Req");
 			if (W(0, 2) == 0)
